@@ -20,6 +20,9 @@ Checked after every operation of a history:
   joined/selectin/subquery eager children, ``from_statement``, legacy ``Query``,
   ``identity_token``), by ``get``/``merge``/lazy loads is the identity-map object of its
   own key and carries the requested primary key;
+* ``merge()`` of a detached object whose key carries an identity token (row exists, identity
+  not yet in the session) yields the identity-map object of *that* key, and a following
+  ``get(..., identity_token=tok)`` returns it with zero statements;
 * ``Session.get`` of an identity that is present and whose ``InstanceState.expired`` is
   False returns that object and the M-spy DBAPI log shows **zero** statements
   (``populate_existing`` / ``with_for_update`` variants are exempt from the SQL clause,
@@ -66,7 +69,7 @@ META = {
     "soft_s": {"quick": 50, "thorough": 800},
     "exhaustive": {"quick": False, "thorough": False},
     "require": ["invariant_checks", "returned_checked", "returned_already_held", "get_no_sql_checked",
-                "pk_switch_flushed", "readd_refused_or_done", "key_reused_after_delete"],
+                "pk_switch_flushed", "readd_refused_or_done", "key_reused_after_delete", "merge_token_loaded_checked"],
     "assumptions": ["the harness holds every object it receives, so identity comparisons are never confused by id() reuse"],
 }
 
@@ -405,19 +408,49 @@ def build_ops(h):
 
     def merge():
         cls = rng.choice([P, K, C] if h.block_n else [P, N, K, C])
-        kind = rng.choice(["transient_existing", "transient_new", "detached", "detached_noload"])
+        kind = rng.choice(["transient_existing", "transient_new", "detached", "detached_noload", "detached_token",
+                           "detached_token"])
+        anytok = [o for o in h.held.values() if h.inspect(o).detached and h.inspect(o).key[2] is not None
+                  and not h.inspect(o).modified and not (h.block_n and type(o) is N)]
+        if anytok and rng.random() < 0.35:
+            kind, cls = "detached_token", type(rng.choice(anytok))
         if kind.startswith("detached"):
             cands = h.of(cls, lambda st: st.detached and not st.modified)
+            if kind == "detached_token":
+                # input class: the source's identity key carries an identity token, its row
+                # exists and that (row, token) identity is not in the session yet, so merge()
+                # has to load it - under the same token
+                cands = [o for o in cands if h.inspect(o).key[2] is not None and h.row_exists(o)]
+                absent = [o for o in cands if not h.persistent_for(h.inspect(o).key)]
+                cands = absent or cands
             if kind == "detached_noload":
                 cands = [o for o in cands if h.graph_rows_exist(o)]
             if not cands:
                 return None
             src = rng.choice(cands)
-            got = s.merge(src, load=(kind == "detached"))
+            was_present = bool(h.persistent_for(h.inspect(src).key))
+            got = s.merge(src, load=(kind != "detached_noload"))
             st = h.inspect(src)
             h.see(got)
             if h.inspect(got).persistent:  # (row gone from the database -> merged copy is pending)
                 h.returned(got, cls, st.key[1], st.key[2], how=f"merge {kind}")
+                if st.key[2] is not None and not h.violated:
+                    # the merged identity is present and unexpired now: get() under the
+                    # source's token must hand it out without SQL
+                    h.ctx.count("merge_token_checked")
+                    if not was_present:
+                        h.ctx.count("merge_token_loaded_checked")
+                    ident = st.key[1][0] if len(st.key[1]) == 1 else tuple(st.key[1])
+                    mark = h.rig.spy.mark()
+                    again = s.get(cls, ident, identity_token=st.key[2])
+                    stmts = h.rig.nstatements(mark)
+                    if again is not got:
+                        h.viol("get-after-merge-returns-other-object-for-token-identity",
+                               f"merge of {cls.__name__}{tuple(st.key[1])} token={st.key[2]!r} gave one object, "
+                               f"get(..., identity_token=...) another", h.wit())
+                    elif stmts and not h.inspect(got).expired:
+                        h.viol("get-emits-sql-for-present-unexpired-identity",
+                               f"get after merge emitted {len(stmts)} statement(s) for a token identity", h.wit())
             if got is src:
                 h.viol(h.mech_detached(src) if s.identity_map.get(st.key) is src else "merge-returns-foreign-object",
                        "merge returned the detached source itself", h.wit())
@@ -476,10 +509,11 @@ def build_ops(h):
         # stay visible, could be loaded into a second object the session cannot know to be
         # "new", and a rollback then leaves that one attached for a row that never existed
         # (and displaced if the key's former owner is restored) - outside the property
-        objs = [o for o in persistent() if id(o) not in h.new_in_txn]
+        objs = [o for o in persistent(tokens=True) if id(o) not in h.new_in_txn]
         if not objs:
             return None
-        o = rng.choice(objs)
+        tok = [o for o in objs if h.inspect(o).key[2] is not None]
+        o = rng.choice(tok if tok and rng.random() < 0.4 else objs)
         s.expunge(o)
         if id(o) in h.pk_switched:
             h.block_n = True
@@ -717,7 +751,7 @@ def run(ctx):
     expected_exc = (sa_exc.InvalidRequestError, sa_exc.IntegrityError, orm_exc.FlushError,
                     orm_exc.ObjectDeletedError, orm_exc.DetachedInstanceError, orm_exc.StaleDataError,
                     sa_exc.NoResultFound)
-    per_variant = ctx.pick({"quick": 40, "thorough": 1200})
+    per_variant = ctx.pick({"quick": 80, "thorough": 1200})
     sampled = 0
     for vi, lazy in enumerate(LAZY):
         rig = R.Rig(ctx, [lambda sa, orm, reg, lazy=lazy: R.zoo_pc(sa, orm, reg, child_lazy=lazy), R.zoo_natural])
